@@ -133,6 +133,28 @@ pub struct World {
     pub step: u64,
     /// operations to run inside transport callbacks (C20): (callback kind, closure)
     pub inline_ops: Vec<Box<dyn FnMut(&str, usize) + Send>>,
+    /// C20: scripted handle operations waiting for their callback; handles parked by the application tasks
+    pub inline_steps: Vec<crate::scenario::InlineStep>,
+    /// callbacks seen so far per endpoint: [read, write, flush, any]
+    pub inline_count: [[usize; 4]; 2],
+    pub parked_send: std::collections::HashMap<(usize, u32), ParkedSend>,
+    pub parked_recv: std::collections::HashMap<(usize, u32), ParkedRecv>,
+    pub parked_send_ever: std::collections::HashSet<(usize, u32)>,
+    pub parked_recv_ever: std::collections::HashSet<(usize, u32)>,
+    pub inline_sr: Option<h2::client::SendRequest<bytes::Bytes>>,
+    pub inline_ping: [Option<h2::PingPong>; 2],
+    /// re-entrancy guard: an inline operation never triggers another one
+    pub in_inline: bool,
+}
+
+pub struct ParkedSend {
+    pub stream: h2::SendStream<bytes::Bytes>,
+    pub sent: u64,
+}
+
+pub struct ParkedRecv {
+    pub rs: h2::RecvStream,
+    pub off: u64,
 }
 
 pub type Shared = Arc<Mutex<World>>;
@@ -145,6 +167,15 @@ impl World {
             real: [true, true],
             step: 0,
             inline_ops: vec![],
+            inline_steps: vec![],
+            inline_count: [[0; 4]; 2],
+            parked_send: Default::default(),
+            parked_recv: Default::default(),
+            parked_send_ever: Default::default(),
+            parked_recv_ever: Default::default(),
+            inline_sr: None,
+            inline_ping: [None, None],
+            in_inline: false,
         }
     }
     pub fn log(&mut self, v: Value) {
@@ -176,10 +207,259 @@ fn run_inline(w: &Shared, kind: &str, ep: usize) {
     for op in ops.iter_mut() {
         op(kind, ep);
     }
-    let mut g = w.lock().unwrap();
-    let mut newer = std::mem::take(&mut g.inline_ops);
-    ops.append(&mut newer);
-    g.inline_ops = ops;
+    let due: Vec<crate::scenario::InlineStep> = {
+        let mut g = w.lock().unwrap();
+        let mut newer = std::mem::take(&mut g.inline_ops);
+        ops.append(&mut newer);
+        g.inline_ops = ops;
+        if g.in_inline || g.inline_steps.is_empty() {
+            return;
+        }
+        let k = match kind { "read" => 0, "write" => 1, _ => 2 };
+        g.inline_count[ep][k] += 1;
+        g.inline_count[ep][3] += 1;
+        let (ck, ca) = (g.inline_count[ep][k], g.inline_count[ep][3]);
+        let mut due = vec![];
+        let mut rest = vec![];
+        for st in std::mem::take(&mut g.inline_steps) {
+            if st.ep == ep && ((st.at == kind && st.nth == ck) || (st.at == "any" && st.nth == ca)) {
+                due.push(st);
+            } else {
+                rest.push(st);
+            }
+        }
+        g.inline_steps = rest;
+        if !due.is_empty() {
+            g.in_inline = true;
+        }
+        due
+    };
+    if due.is_empty() {
+        return;
+    }
+    for st in due {
+        // a handle that has not been parked yet: try again a few callbacks later
+        let wait = {
+            let g = w.lock().unwrap();
+            match inline_key(&st.act) {
+                Some((send, tag)) => !(if send { g.parked_send_ever.contains(&(ep, tag)) } else { g.parked_recv_ever.contains(&(ep, tag)) }),
+                None => false,
+            }
+        };
+        if wait {
+            let mut g = w.lock().unwrap();
+            let k = match st.at.as_str() { "read" => 0, "write" => 1, "flush" => 2, _ => 3 };
+            let c = g.inline_count[ep][k];
+            if c < 400 {
+                let mut st2 = st.clone();
+                st2.nth = c + 2;
+                g.inline_steps.push(st2);
+            }
+            continue;
+        }
+        exec_inline(w, &st, kind);
+    }
+    w.lock().unwrap().in_inline = false;
+}
+
+/// (is a send-half operation, tag) of an inline act that works on a parked handle
+fn inline_key(a: &crate::scenario::InlineAct) -> Option<(bool, u32)> {
+    use crate::scenario::InlineAct::*;
+    match a {
+        Data { tag, .. } | Reset { tag, .. } | DropSend { tag } | Reserve { tag, .. } | Capacity { tag } => Some((true, *tag)),
+        PollData { tag } | Release { tag, .. } | DropRecv { tag } => Some((false, *tag)),
+        _ => None,
+    }
+}
+
+/// the inline steps scheduled for quiescence number `nq` (what never fired inside a callback is run from the executor)
+pub fn run_inline_at_q(w: &Shared, nq: usize) {
+    let due: Vec<crate::scenario::InlineStep> = {
+        let mut g = w.lock().unwrap();
+        let (due, rest): (Vec<_>, Vec<_>) = std::mem::take(&mut g.inline_steps).into_iter().partition(|st| st.at == "q" && st.nth <= nq);
+        g.inline_steps = rest;
+        due
+    };
+    for st in due {
+        exec_inline(w, &st, "q");
+    }
+}
+
+/// Watchdog for operations executed inside transport callbacks: if h2 held one of its locks there, the operation would
+/// never return (std::sync::Mutex is not re-entrant). The process then reports the deadlock and exits with status 3.
+static INLINE_STARTED_MS: std::sync::atomic::AtomicU64 = std::sync::atomic::AtomicU64::new(0);
+static WATCHDOG: std::sync::Once = std::sync::Once::new();
+pub static CURRENT_RUN: Mutex<String> = Mutex::new(String::new());
+
+fn now_ms() -> u64 {
+    std::time::SystemTime::now().duration_since(std::time::UNIX_EPOCH).map(|d| d.as_millis() as u64).unwrap_or(1)
+}
+
+fn watchdog_arm() {
+    WATCHDOG.call_once(|| {
+        std::thread::spawn(|| loop {
+            std::thread::sleep(std::time::Duration::from_millis(500));
+            let s = INLINE_STARTED_MS.load(std::sync::atomic::Ordering::SeqCst);
+            if s != 0 && now_ms().saturating_sub(s) > 20_000 {
+                let name = CURRENT_RUN.lock().map(|g| g.clone()).unwrap_or_default();
+                eprintln!("DEADLOCK run={} : a handle operation executed inside a transport callback did not return within 20 s", name);
+                std::process::exit(3);
+            }
+        });
+    });
+    INLINE_STARTED_MS.store(now_ms(), std::sync::atomic::Ordering::SeqCst);
+}
+
+fn watchdog_disarm() {
+    INLINE_STARTED_MS.store(0, std::sync::atomic::Ordering::SeqCst);
+}
+
+/// One handle operation, executed with no harness lock held. It is logged like any application call (task "inline").
+fn exec_inline(w: &Shared, st: &crate::scenario::InlineStep, kind: &str) {
+    struct Disarm;
+    impl Drop for Disarm {
+        fn drop(&mut self) {
+            watchdog_disarm(); // also when the operation panics
+        }
+    }
+    watchdog_arm();
+    let _d = Disarm;
+    exec_inline_inner(w, st, kind);
+}
+
+fn exec_inline_inner(w: &Shared, st: &crate::scenario::InlineStep, kind: &str) {
+    use crate::scenario::InlineAct::*;
+    use crate::tasks::{body, err_json, intact, Api};
+    use serde_json::json;
+    let ep = st.ep;
+    let api = Api { w, ep, task: "inline" };
+    w.lock().unwrap().log(json!({"t": "inline", "ep": EP[ep], "at": kind, "act": serde_json::to_value(&st.act).unwrap_or_default()}));
+    let waker = futures_noop_waker();
+    let mut cx = std::task::Context::from_waker(&waker);
+    match &st.act {
+        Data { tag, n, eos } => {
+            let p = w.lock().unwrap().parked_send.remove(&(ep, *tag));
+            if let Some(mut p) = p {
+                let sid = p.stream.stream_id().as_u32();
+                match p.stream.send_data(body(*tag, p.sent, *n), *eos) {
+                    Ok(()) => {
+                        api.ev("send_data", sid, *tag, "ok", json!({"n": n, "eos": eos, "off": p.sent}));
+                        p.sent += *n as u64;
+                    }
+                    Err(e) => api.ev("send_data", sid, *tag, "err", json!({"n": n, "eos": eos, "off": p.sent, "e": err_json(&e)})),
+                }
+                w.lock().unwrap().parked_send.insert((ep, *tag), p);
+            }
+        }
+        Reset { tag, code } => {
+            let p = w.lock().unwrap().parked_send.remove(&(ep, *tag));
+            if let Some(mut p) = p {
+                let sid = p.stream.stream_id().as_u32();
+                p.stream.send_reset((*code).into());
+                api.ev("send_reset", sid, *tag, "ok", json!({"ch": (*code >> 16) as i64, "cl": (*code & 0xffff) as i64}));
+                w.lock().unwrap().parked_send.insert((ep, *tag), p);
+            }
+        }
+        DropSend { tag } => {
+            let p = w.lock().unwrap().parked_send.remove(&(ep, *tag));
+            if let Some(p) = p {
+                let sid = p.stream.stream_id().as_u32();
+                drop(p);
+                api.ev("drop_send", sid, *tag, "ok", json!({}));
+            }
+        }
+        Reserve { tag, n } => {
+            let p = w.lock().unwrap().parked_send.remove(&(ep, *tag));
+            if let Some(mut p) = p {
+                let sid = p.stream.stream_id().as_u32();
+                p.stream.reserve_capacity(*n);
+                api.ev("reserve", sid, *tag, "ok", json!({"n": n}));
+                w.lock().unwrap().parked_send.insert((ep, *tag), p);
+            }
+        }
+        Capacity { tag } => {
+            let p = w.lock().unwrap().parked_send.remove(&(ep, *tag));
+            if let Some(p) = p {
+                let sid = p.stream.stream_id().as_u32();
+                let c = p.stream.capacity();
+                api.ev("capacity", sid, *tag, "ok", json!({"v": c}));
+                w.lock().unwrap().parked_send.insert((ep, *tag), p);
+            }
+        }
+        PollData { tag } => {
+            let p = w.lock().unwrap().parked_recv.remove(&(ep, *tag));
+            if let Some(mut p) = p {
+                let sid = p.rs.stream_id().as_u32();
+                match p.rs.poll_data(&mut cx) {
+                    std::task::Poll::Pending => api.ev("poll_data", sid, *tag, "pending", json!({})),
+                    std::task::Poll::Ready(None) => api.ev("poll_data", sid, *tag, "none", json!({"eos": p.rs.is_end_stream()})),
+                    std::task::Poll::Ready(Some(Err(e))) => api.ev("poll_data", sid, *tag, "err", json!({"e": err_json(&e)})),
+                    std::task::Poll::Ready(Some(Ok(b))) => {
+                        let ok = intact(*tag, p.off, &b);
+                        api.ev("poll_data", sid, *tag, "some", json!({"n": b.len(), "off": p.off, "intact": ok, "eos": p.rs.is_end_stream()}));
+                        p.off += b.len() as u64;
+                    }
+                }
+                w.lock().unwrap().parked_recv.insert((ep, *tag), p);
+            }
+        }
+        Release { tag, n } => {
+            let p = w.lock().unwrap().parked_recv.remove(&(ep, *tag));
+            if let Some(mut p) = p {
+                let sid = p.rs.stream_id().as_u32();
+                match p.rs.flow_control().release_capacity(*n) {
+                    Ok(()) => api.ev("release", sid, *tag, "ok", json!({"n": n})),
+                    Err(e) => api.ev("release", sid, *tag, "err", json!({"n": n, "e": err_json(&e)})),
+                }
+                w.lock().unwrap().parked_recv.insert((ep, *tag), p);
+            }
+        }
+        DropRecv { tag } => {
+            let p = w.lock().unwrap().parked_recv.remove(&(ep, *tag));
+            if let Some(p) = p {
+                let sid = p.rs.stream_id().as_u32();
+                drop(p);
+                api.ev("drop_recv", sid, *tag, "ok", json!({}));
+            }
+        }
+        SendRequest { tag } => {
+            let sr = w.lock().unwrap().inline_sr.take();
+            if let Some(mut sr) = sr {
+                let req = http::Request::builder().method("GET").uri("https://sim.test/inline").header("x-tag", tag.to_string()).body(()).unwrap();
+                let canon = crate::tasks::canon_req(&req);
+                match sr.send_request(req, true) {
+                    Ok((resp, stream)) => {
+                        let sid = stream.stream_id().as_u32();
+                        api.ev("send_request", sid, *tag, "ok", json!({"hdr": canon, "eos": true}));
+                        drop(stream);
+                        api.ev("drop_send", sid, *tag, "ok", json!({}));
+                        drop(resp);
+                        api.ev("drop_resp", sid, *tag, "ok", json!({}));
+                    }
+                    Err(e) => api.ev("send_request", 0, *tag, "err", json!({"hdr": canon, "eos": true, "e": err_json(&e)})),
+                }
+                w.lock().unwrap().inline_sr = Some(sr);
+            }
+        }
+        Ping => {
+            let pp = w.lock().unwrap().inline_ping[ep].take();
+            if let Some(mut pp) = pp {
+                match pp.send_ping(h2::Ping::opaque()) {
+                    Ok(()) => api.ev("send_ping", 0, 0, "ok", json!({})),
+                    Err(e) => api.ev("send_ping", 0, 0, "err", json!({"e": err_json(&e)})),
+                }
+                w.lock().unwrap().inline_ping[ep] = Some(pp);
+            }
+        }
+    }
+}
+
+fn futures_noop_waker() -> std::task::Waker {
+    struct Noop;
+    impl std::task::Wake for Noop {
+        fn wake(self: Arc<Self>) {}
+    }
+    std::task::Waker::from(Arc::new(Noop))
 }
 
 /// Dropping the transport closes it: the other side sees EOF once the bytes in flight are read
